@@ -8,15 +8,16 @@
 static W LD_##N(W a, int sz){ VM_CHK(a,sz); W c = cl_##N(a & ~7UL); if (sz == 8) return c; return (c >> ((a & 7UL) * 8)) & vm_szmask(sz); } \
 static void STr_##N(W a, W v, int sz){ if (sz == 8) { cs_##N(a, v); return; } W sh = (a & 7UL) * 8; W m = vm_szmask(sz) << sh; \
   W c = cl_##N(a & ~7UL); cs_##N(a & ~7UL, (c & ~m) | ((v << sh) & m)); } \
+static void PRE_##N(W a){ if (!in_##N(a & ~7UL)) { (void)cl_##N(a & ~7UL); } } /* bad addresses are diagnosed outside atomic sections */ \
 static void ST_##N(W a, W v, int sz){ VM_CHK(a,sz); if (sz == 8) { cs_##N(a, v); return; } \
-  __CPROVER_atomic_begin(); STr_##N(a, v, sz); __CPROVER_atomic_end(); } \
-static W RMW_##N(int op, W a, W v, int sz){ VM_CHK(a,sz); __CPROVER_atomic_begin(); W o = LD_##N(a, sz); \
+  PRE_##N(a); __CPROVER_atomic_begin(); STr_##N(a, v, sz); __CPROVER_atomic_end(); } \
+static W RMW_##N(int op, W a, W v, int sz){ VM_CHK(a,sz); PRE_##N(a); __CPROVER_atomic_begin(); W o = LD_##N(a, sz); \
   W n = op == 0 ? v : op == 1 ? o + v : op == 2 ? o - v : op == 3 ? (o & v) : op == 4 ? (o | v) : (o ^ v); \
   STr_##N(a, n & vm_szmask(sz), sz); __CPROVER_atomic_end(); return o; } \
-static W CAS_##N(W a, W e, W n, int sz, int weak){ VM_CHK(a,sz); __CPROVER_atomic_begin(); W o = LD_##N(a, sz); \
+static W CAS_##N(W a, W e, W n, int sz, int weak){ VM_CHK(a,sz); PRE_##N(a); __CPROVER_atomic_begin(); W o = LD_##N(a, sz); \
   _Bool s = (o == e); if (VM_WEAK_FAIL(weak)) s = 0; if (s) STr_##N(a, n, sz); __CPROVER_atomic_end(); vm_cas_ok = s; return o; } \
 static W CAS2_##N(W a, W elo, W ehi, W nlo, W nhi){ __CPROVER_assert((a & 15UL) == 0, "memory safety: cmpxchg16b operand not 16-byte aligned"); \
-  __CPROVER_atomic_begin(); W lo = cl_##N(a), hi = cl_##N(a + 8); _Bool s = (lo == elo && hi == ehi); \
+  PRE_##N(a); PRE_##N(a + 8); __CPROVER_atomic_begin(); W lo = cl_##N(a), hi = cl_##N(a + 8); _Bool s = (lo == elo && hi == ehi); \
   if (s) { cs_##N(a, nlo); cs_##N(a + 8, nhi); } __CPROVER_atomic_end(); return s; }
 SETS(DEF_ACC)
 #define LD(s, a, z) LD_##s(a, z)
@@ -77,6 +78,9 @@ static void vm_thread_end(int t) {
 static void vm_park(void) { vm_status[vm_tid] = VS_PARKED; vm_dead = 1; }
 static void vm_set_kt(W k) { vm_kt = k; }
 static W vm_is_parked(W t) { return vm_status[t] == VS_PARKED; }
+static W vm_get_kt(void) { return vm_kt; }
+static void vm_atomic_begin(void) { __CPROVER_atomic_begin(); }
+static void vm_atomic_end(void) { __CPROVER_atomic_end(); }
 static void vm_start(void) {}
 static void vm_monitor(void) {
   _Bool all = 1, stuck = 0;
